@@ -7,7 +7,8 @@ regenerated registry.  Oracle (implementation only): for every (state type, exte
 probed as written and read, on the value domain the property quantifies over, decode(encode(x)) == x with
 the same type through the recorded type identifier; copy_state_data equality and non-aliasing.
 """
-import base64, math, pickle, warnings
+import base64, glob, json, math, os, pickle, warnings
+import common
 from common import hx, unhxs
 import gen_statetypes
 from props.C03 import rand_text
@@ -359,7 +360,6 @@ def has_surrogate(s):
 
 
 def run(ctx):
-    import json
     import liquer.state_types as S
     import liquer.constants as K
     rng = ctx.rng
@@ -368,12 +368,13 @@ def run(ctx):
     rows = {r["ident"]: r for r in sv["rows"]}
     N = 3000 if ctx.tier == "thorough" else 60
 
-    # ---- corpus / the D10 witnesses first
-    for ident, ext, x in [("dictionary", "djson", {'a"b': 1}), ("dictionary", "djson", {"a": {"t": (1, 2)}}), ("dictionary", "djson", {"\\": "x", "\n": None})]:
-        ctx.case("witness:" + repr(x))
-        bad = oracle_rt(S, x, ident, ext)
-        if bad and bad != "refused":
-            ctx.violation("rt:%s:%s:%s" % (ident, ext, describe(x)[:80]), bad, dict(kind="rt", ident=ident, ext=ext, value=pack(x), repr=describe(x)))
+    # ---- corpus first (minimised past failures)
+    for p in sorted(glob.glob(os.path.join(common.VERIF, "corpus", "C11", "*.json"))):
+        case = json.load(open(p))["case"]
+        ctx.case("corpus:" + os.path.basename(p))
+        still = replay(ctx, case)
+        if still:
+            ctx.violation("corpus:" + os.path.basename(p), still, case)
 
     # ---- oracle: every (type, extension) in writes ∩ reads
     pairs = 0
